@@ -163,9 +163,42 @@ def assemble(repo=None, contracts_path=None, prelude_path=None, mutate=None):
         if named:
             report["edits_applied"].append("V-R3 %s" % qual)
         body2 = body
-        cs = [c for c in contracts if c["fn"] == qual]
+        cs = [dict(c) for c in contracts if c["fn"] == qual]
+        if name == "from_keyframes":
+            # the contracts name the function's locals by ROLE; find what they are called in this version
+            roles = {}
+            vecs = re.findall(r"let\s+mut\s+(\w+)\s*=\s*Vec::new\(\)\s*;", body)
+            m = re.search(r"(\w+)\s*\.push\(\s*SplitKeyframe::new", body)
+            if len(vecs) == 2 and m and m.group(1) in vecs:
+                roles["converted_frames"] = m.group(1)
+                roles["frame_index_map"] = [v for v in vecs if v != m.group(1)][0]
+            m = re.search(r"let\s+mut\s+(\w+)\s*=\s*default_easing\s*;", body)
+            if m:
+                roles["current_easing"] = m.group(1)
+            m = re.search(r"let\s+mut\s+(\w+)\s*=\s*false\s*;", body)
+            if m:
+                roles["has_frame_data"] = m.group(1)
+            m = re.search(r"for\s+(\w+)\s+in\s+keyframes\.into_iter\(\)\s*\{", body)
+            if m:
+                roles["keyframe"] = m.group(1)
+            if len(roles) != 5:
+                raise Undecided("anchor lost: could not identify the locals of from_keyframes by role (found %s)" % sorted(roles))
+            if any(k != v for k, v in roles.items()):
+                report["edits_applied"].append("contract identifiers mapped to renamed locals: %s" % {k: v for k, v in roles.items() if k != v})
+                for c in cs:
+                    t = c["text"]
+                    for k, v in roles.items():
+                        t = re.sub(r"\b%s\b" % k, "\0ROLE_%s\0" % k, t)
+                    for k, v in roles.items():
+                        t = t.replace("\0ROLE_%s\0" % k, v)
+                    c["text"] = t
+            loop_header = "for %s in keyframes.into_iter() {" % roles["keyframe"]
+            loop_ghost = "for %s in it: keyframes.into_iter()\n" % roles["keyframe"]
+        else:
+            loop_header = "for keyframe in keyframes.into_iter() {"
+            loop_ghost = "for keyframe in it: keyframes.into_iter()\n"
         contract = "".join(c["text"] for c in cs if c["kind"] == "contract")
-        LOOP = "for keyframe in keyframes.into_iter() {"
+        LOOP = loop_header
         structural = [c for c in cs if c["kind"] in ("invariant", "at")]
         if structural:
             # structural anchors (brace matching on the ORIGINAL body, applied back to front so offsets stay valid)
@@ -179,7 +212,7 @@ def assemble(repo=None, contracts_path=None, prelude_path=None, mutate=None):
                 lcb = vlib.find_matching_brace(body2, lob)
             for c in structural:
                 if c["kind"] == "invariant":
-                    inserts.append((lo, len(LOOP), "for keyframe in it: keyframes.into_iter()\n" + c["text"] + "        {"))
+                    inserts.append((lo, len(LOOP), loop_ghost + c["text"] + "        {"))
                     report["edits_applied"].append("V-R2")
                 elif c["where"] == "body-start":
                     inserts.append((1, 0, "\n" + c["text"]))
@@ -196,12 +229,19 @@ def assemble(repo=None, contracts_path=None, prelude_path=None, mutate=None):
             if c["kind"] in ("invariant", "at"):
                 continue
             if c["kind"] == "closure":
-                # V-R6: `|args| body` -> `|args| -> (ret) ensures .. { body }`; the section text is the annotated form and
-                # must contain the original closure text verbatim as its body
-                if body2.count(c["anchor"]) != 1 or c["anchor"].split("|")[-1].strip() not in c["text"]:
-                    raise Undecided("anchor lost: closure %r in %s" % (c["anchor"], qual))
-                body2 = body2.replace(c["anchor"], c["text"], 1)
-                report["edits_applied"].append("V-R6 %s" % qual)
+                # V-R6: `|x| [a, x]` -> `|x: &SplitKeyframe<Value>| -> (p: [..; 2]) ensures p == [a, x] { [a, x] }`.
+                # Matched by shape, not by identifier names; a body without any closure needs no annotation.
+                ms = list(re.finditer(r"\|\s*(\w+)\s*\|\s*\[\s*(\w+)\s*,\s*(\w+)\s*\]", body2))
+                if len(ms) == 1:
+                    m = ms[0]
+                    arr = "[%s, %s]" % (m.group(2), m.group(3))
+                    ann = "|%s: &SplitKeyframe<Value>| -> (p: [&SplitKeyframe<Value>; 2]) ensures p == %s { %s }" % (m.group(1), arr, arr)
+                    body2 = body2[:m.start()] + ann + body2[m.end():]
+                    report["edits_applied"].append("V-R6 %s" % qual)
+                elif len(ms) == 0 and "|" not in re.sub(r"\|\|", "", body2):
+                    pass  # no closure in this body
+                else:
+                    raise Undecided("anchor lost: closure shape in %s" % qual)
             elif c["kind"] == "splice":
                 if body2.count(c["anchor"]) != 1:
                     raise Undecided("anchor lost (%d matches): %r in %s" % (body2.count(c["anchor"]), c["anchor"], qual))
